@@ -452,6 +452,137 @@ theorem source_pinned :
     Gen.Range.specRegex = "(\\d*)-(\\d*)" ∧ Gen.Range.unitLit = [98, 121, 116, 101, 115] := by
   decide
 
+/-! ### Header text -/
+
+def AllDigits (l : List Nat) : Prop := ∀ x ∈ l, isDigit x = true
+
+private theorem spanDigits_append (a rest : List Nat) (ha : AllDigits a)
+    (hr : rest = [] ∨ ∃ x r, rest = x :: r ∧ isDigit x = false) :
+    spanDigits (a ++ rest) = (a, rest) := by
+  induction a with
+  | nil =>
+    rcases hr with rfl | ⟨x, r, rfl, hx⟩
+    · rfl
+    · simp [spanDigits, hx]
+  | cons c cs ih =>
+    have hc : isDigit c = true := ha c (by simp)
+    have := ih (fun x hx => ha x (by simp [hx]))
+    show spanDigits (c :: (cs ++ rest)) = _
+    rw [spanDigits]
+    simp [hc, this]
+
+/-- one spec `a-b` followed by the end of the text or a comma -/
+private theorem scan_spec (a b rest : List Nat) (ha : AllDigits a) (hb : AllDigits b)
+    (hr : rest = [] ∨ ∃ r, rest = 44 :: r) :
+    scan (a ++ 45 :: (b ++ rest)) = (a, b) :: scan rest := by
+  have hr' : rest = [] ∨ ∃ x r, rest = x :: r ∧ isDigit x = false := by
+    rcases hr with h | ⟨r, h⟩
+    · exact Or.inl h
+    · exact Or.inr ⟨44, r, h, by decide⟩
+  have h1 : spanDigits (a ++ 45 :: (b ++ rest)) = (a, 45 :: (b ++ rest)) :=
+    spanDigits_append a _ ha (Or.inr ⟨45, _, rfl, by decide⟩)
+  have h2 : spanDigits (b ++ rest) = (b, rest) := spanDigits_append b rest hb hr'
+  cases hl : a ++ 45 :: (b ++ rest) with
+  | nil => cases a <;> simp at hl
+  | cons c cs =>
+    rw [scan]
+    rw [← hl]
+    simp only [h1]
+    split
+    · rename_i r heq
+      rw [h1] at heq
+      simp only at heq
+      injection heq with _ hr2
+      subst hr2
+      rw [h2]
+    · rename_i hne
+      exact absurd (by rw [h1]) (hne (b ++ rest))
+
+/-- a `,` (or any other character that is neither a digit nor `-`) is skipped -/
+private theorem scan_skip (x : Nat) (r : List Nat) (hx : isDigit x = false) (h45 : x ≠ 45) : scan (x :: r) = scan r := by
+  rw [scan]
+  have h1 : spanDigits (x :: r) = ([], x :: r) := by simp [spanDigits, hx]
+  split
+  · rename_i r' heq
+    rw [h1] at heq
+    simp only at heq
+    injection heq with hx' _
+    exact absurd hx' h45
+  · rfl
+
+/-- the text of a range set: specs `a-b` joined by commas -/
+def renderSet : List (List Nat × List Nat) → List Nat
+  | [] => []
+  | [(a, b)] => a ++ 45 :: b
+  | (a, b) :: p :: ps => a ++ 45 :: (b ++ 44 :: renderSet (p :: ps))
+
+theorem scan_renderSet : ∀ (ps : List (List Nat × List Nat)),
+    (∀ p ∈ ps, AllDigits p.1 ∧ AllDigits p.2) → scan (renderSet ps) = ps
+  | [], _ => by simp [renderSet, scan]
+  | [(a, b)], h => by
+    have := scan_spec a b [] (h (a, b) (by simp)).1 (h (a, b) (by simp)).2 (Or.inl rfl)
+    simpa [renderSet, scan] using this
+  | (a, b) :: p :: ps, h => by
+    have h1 := scan_spec a b (44 :: renderSet (p :: ps)) (h (a, b) (by simp)).1 (h (a, b) (by simp)).2
+      (Or.inr ⟨_, rfl⟩)
+    rw [renderSet, h1, scan_skip 44 _ (by decide) (by decide),
+      scan_renderSet (p :: ps) (fun q hq => h q (by simp [hq]))]
+
+private theorem splitEq_append (A r : List Nat) (hA : ∀ x ∈ A, x ≠ 61) :
+    splitEq (A ++ 61 :: r) = some (A, r) := by
+  induction A with
+  | nil => simp [splitEq]
+  | cons a A ih =>
+    have ha : a ≠ 61 := hA a (by simp)
+    show splitEq (a :: (A ++ 61 :: r)) = _
+    rw [splitEq]
+    simp [ha, ih (fun x hx => hA x (by simp [hx]))]
+
+/-- **C03.8 — from header text to specs.**  For a grammatical header
+`bytes=` spec *( "," spec ) — each spec `first-last`, `first-` or `-suffix`
+written with ASCII digits (any number of them up to CPython's `int()` limit) —
+the extracted specs are exactly the written ones, in order. -/
+theorem header_text_specs (ps : List (List Nat × List Nat))
+    (hd : ∀ p ∈ ps, AllDigits p.1 ∧ AllDigits p.2)
+    (hne : ∀ p ∈ ps, ¬ (p.1 = [] ∧ p.2 = []))
+    (hlen : ∀ p ∈ ps, p.1.length ≤ maxIntDigits ∧ p.2.length ≤ maxIntDigits) :
+    headerSpecs (bytesUnit ++ 61 :: renderSet ps) = some (ps.map toSpec) := by
+  unfold headerSpecs
+  have hunit : ∀ x ∈ bytesUnit, x ≠ 61 := by decide
+  rw [splitEq_append bytesUnit _ hunit]
+  simp only [ne_eq, not_true_eq_false, if_false]
+  rw [scan_renderSet ps hd]
+  have hfilter : ps.filter (fun p => !(decide (p.1 = []) && decide (p.2 = []))) = ps := by
+    rw [List.filter_eq_self]
+    intro p hp
+    have := hne p hp
+    simp only [Bool.not_eq_true', Bool.and_eq_false_iff, decide_eq_false_iff_not]
+    by_cases h1 : p.1 = []
+    · exact Or.inr (fun h2 => this ⟨h1, h2⟩)
+    · exact Or.inl h1
+  simp only [hfilter]
+  have hany : ps.any (fun p => !(intOk p.1 && intOk p.2)) = false := by
+    rw [List.any_eq_false]
+    intro p hp
+    have := hlen p hp
+    simp [intOk, this.1, this.2]
+  rw [if_neg (by rw [hany]; simp)]
+
+/-- … hence the answer to a grammatical header is the resolution of its written specs
+(to which C03.1–C03.5 apply) -/
+theorem grammatical_header (ps : List (List Nat × List Nat)) (n : Nat)
+    (hd : ∀ p ∈ ps, AllDigits p.1 ∧ AllDigits p.2)
+    (hne : ∀ p ∈ ps, ¬ (p.1 = [] ∧ p.2 = []))
+    (hlen : ∀ p ∈ ps, p.1.length ≤ maxIntDigits ∧ p.2.length ≤ maxIntDigits) :
+    parseRange (bytesUnit ++ 61 :: renderSet ps) n = resolveSpecs n (ps.map toSpec) := by
+  unfold parseRange
+  rw [header_text_specs ps hd hne hlen]
+
+/-- "5-24", "-3", "7-" -/
+example : headerSpecs (bytesUnit ++ 61 :: renderSet [([53], [50, 52]), ([], [51]), ([55], [])]) =
+    some [(some 5, some 24), (none, some 3), (some 7, none)] :=
+  header_text_specs _ (by unfold AllDigits; decide) (by decide) (by decide)
+
 /-! ### Non-vacuity: the hypotheses are met by concrete non-trivial inputs -/
 
 /-- "bytes=0-9,20-29,5-24" -/
